@@ -135,6 +135,14 @@ ArithSeeds(T) == UNION { Trees(n) : n \in 1..SeedLeaves } \cup Special(T)
 bA == <<"v", "A">>  bB == <<"v", "B">>  bC == <<"v", "C">>
 \* literals over two atoms WITH BOTH NEGATIONS (a complementary pair on the smallest atom and one on a non-smallest atom), true, false
 Lits == { bA, bB, Not(bA), Not(bB), <<"T">>, <<"F">> } \cup (IF Rich THEN { bC, Not(bC), <<"imp", bA, bB>>, <<"or", bA, bC>> } ELSE {})
+\* members that are APPLICATIONS (a comparison, an equation between applications, a predicate of an application): opaque atoms that
+\* carry the HOL term itself (codec encoding), exactly what FromHolP gives for them.  They are larger than true / false / a variable
+\* in the term order, which Boolean-variable members never are.
+hx == <<"var", "x", NatT>>  hy == <<"var", "y", NatT>>  hf == <<"var", "f", FunT(NatT, NatT)>>  hP == <<"var", "P", FunT(NatT, BoolT)>>
+Hol(t) == <<"o", <<"hol", t>> >>
+aLt == Hol(App(App(<<"const", "less", F2(NatT, NatT, BoolT)>>, hx), hy))     \* x < y
+aEq == Hol(App(App(EqC(NatT), App(hf, hx)), hy))                              \* f x = y
+aP == Hol(App(hP, App(hf, hy)))                                                \* P (f y)
 \* a member of a disjunction is not itself a disjunction
 Pool(c) == IF c = "or" THEN Lits \ { <<"or", bA, bC>> } ELSE Lits
 \* one chain per member set (in the order TLC enumerates the set); the other arrangements are reached by the actions
@@ -148,10 +156,14 @@ MemberSets(c) == { M \in SUBSET Pool(c) : Cardinality(M) >= 1 /\ Cardinality(M) 
 WideSeqs == { <<bA, bB, Not(bB)>>, <<bA, bB, Not(bB), bC>>, <<bA, Not(bA), bB, Not(bB)>>, <<bA, bB, bC, Not(bC)>>, <<bA, Not(bA), bB, bC>>,
               <<bA, bB, Not(bB), <<"T">> >>, <<bA, bB, Not(bB), <<"F">> >>, <<bA, bB, Not(bB), bB>>, <<bA, bA, bB, Not(bB)>>,
               <<bA, Not(bB), bB, Not(bB)>>, << <<"imp", bA, bB>>, bA, Not(bB)>>, << <<"imp", bA, bB>>, bB, Not(bB), bA>>,
-              <<bB, Not(bC), bC>>, <<Not(bA), bB, Not(bB), bC>> }
+              <<bB, Not(bC), bC>>, <<Not(bA), bB, Not(bB), bC>>,
+              \* application members with the units true / false (every position: all orders and bracketings are reached)
+              << <<"T">>, aLt, aEq>>, << <<"F">>, aLt, aEq>>, << <<"T">>, <<"F">>, aLt>>, <<aLt, aEq, aP>>, <<bA, aLt, <<"T">> >>,
+              <<bA, aLt, <<"F">> >>, <<aLt, Not(aLt), aEq>>, << <<"T">>, Not(aLt), aP>>, << <<"F">>, Not(aLt), Not(aEq)>>,
+              << <<"T">>, aLt, aEq, aP>>, << <<"F">>, aLt, aEq, bA>>, << <<"T">>, <<"F">>, aLt, aEq>>, <<aLt, aEq, Not(aEq), <<"T">> >> }
 RECURSIVE ChainSeq(_,_)
 ChainSeq(c, q) == IF Len(q) = 1 THEN q[1] ELSE <<c, q[1], ChainSeq(c, Tail(q))>>
-NnfSeeds == { Not(<<"and", bA, bB>>), Not(<<"or", bA, Not(bB)>>), Not(Not(bA)), Not(<<"and", bA, <<"or", bB, bA>> >>),
+NnfSeeds == { Not(<<"or", <<"F">>, <<"or", aLt, aEq>> >>), Not(<<"and", <<"T">>, <<"and", aLt, Not(aEq)>> >>), Not(<<"and", bA, bB>>), Not(<<"or", bA, Not(bB)>>), Not(Not(bA)), Not(<<"and", bA, <<"or", bB, bA>> >>),
               <<"and", Not(<<"or", bA, bB>>), bA>>, Not(<<"T">>), <<"or", Not(<<"F">>), bA>> }
             \cup (IF Rich THEN { Not(<<"and", <<"or", bA, bB>>, Not(bC)>>), Not(<<"or", <<"and", bA, bB>>, <<"and", Not(bA), bC>> >>),
                                  Not(<<"and", <<"imp", bA, bB>>, bA>>) } ELSE {})
@@ -180,7 +192,8 @@ WfA(x, ring) == CASE x[1] = "v" -> TRUE [] x[1] = "n" -> x[2] >= 0
                   [] x[1] = "S" -> ~ring /\ WfA(x[2], ring)
                   [] x[1] = "o" -> ~ring /\ x[2][1] = "tsub"
                   [] OTHER -> FALSE
-WfP(x) == CASE x[1] \in {"v", "T", "F"} -> TRUE [] x[1] = "not" -> WfP(x[2]) [] PBin(x) -> WfP(x[2]) /\ WfP(x[3]) [] OTHER -> FALSE
+WfP(x) == CASE x[1] \in {"v", "T", "F"} -> TRUE [] x[1] = "not" -> WfP(x[2]) [] PBin(x) -> WfP(x[2]) /\ WfP(x[3])
+            [] x[1] = "o" -> x[2][1] = "hol" /\ TypeOf(x[2][2], <<>>) = BoolT /\ FromHolP(x[2][2]) = x [] OTHER -> FALSE
 TypeInv == /\ mode \in {"arith", "conj", "disj", "nnf"}
            /\ (mode = "arith") => ty \in {"nat", "ring"} /\ WfA(e, ty = "ring")
            /\ (mode # "arith") => ty = "bool" /\ WfP(e)
